@@ -957,8 +957,27 @@ Definition cmd_string (st : interp) (argv : list value) : M value :=
 Definition cmd_recorder (st : interp) (argv : list value) : M value :=
   ret (set_trace st (map as_str argv :: i_trace st)) (last argv v_empty).
 
+(* The checker's identity command: a fresh value carrying only the string of its argument.
+   Model-only switch (never set by a generated program, unknown to the implementation's
+   `ident`): while the global `ident_keeps_integral_floats` exists, a float whose string
+   looks like an integer keeps its type.  Check/C13 uses it to recognise the known finding
+   D31 case by case: "the two forms differ only because such a float passed through a string". *)
+Definition looks_integral (s : str) : bool :=
+  forallb (fun c => is_digit10 c || (c =? c_minus)%N) s.
+Definition ident_keep_mark : str := lit "ident_keeps_integral_floats".
+Fixpoint keep_strip (v : value) : value :=
+  match v with
+  | VFlt _ => if looks_integral (as_str v) then v else VStr (as_str v)
+  | VList l => VList (map keep_strip l)
+  | VDict d => VDict (map (fun kv => match kv with (k, x) => (keep_strip k, keep_strip x) end) d)
+  | _ => VStr (as_str v)
+  end.
 Definition cmd_ident (st : interp) (argv : list value) : M value :=
-  ret st (VStr (as_str (arg argv 1))).
+  let v := arg argv 1 in
+  match assoc_get ident_keep_mark (sc_get_scope (i_scopes st) O) with
+  | Some _ => ret st (keep_strip v)
+  | None => ret st (VStr (as_str v))
+  end.
 
 (* ---------- Procedure::execute ---------- *)
 Definition proc_wrong_args (name : value) (parms : list value) : str :=
